@@ -37,7 +37,11 @@ func grow(c *pbt.C, h *sim.Hist, label string, minMomentums, maxSteps int) {
 		c.Step()
 	}
 	for h.Momentums-start < minMomentums && !h.Dead {
-		h.Produce(c.Weighted(label+".skip", 4, 1, 1))
+		skip := c.Weighted(label+".skip", 6, 2, 1, 1)
+		if skip == 3 {
+			skip = c.Int(label+".skipfar", 5, 45) // branches that span more than one tick
+		}
+		h.Produce(skip)
 	}
 }
 
@@ -77,7 +81,8 @@ func reorgScenario(c *pbt.C, id string, check func(c *pbt.C, key string, b, cn *
 				c.Failf(id+"/setup", "second producer cannot sync the prefix: %v", err)
 			}
 		}
-		b := h.W.AddNode("B", false)
+		// B also holds the pillar keys: after the switch it produces on the adopted branch
+		b := h.W.AddNode("B", true)
 		if forkAt > 1 {
 			if _, err := b.Bridge.InsertChain(h.A.Range(2, forkAt)); err != nil {
 				c.Failf(id+"/setup", "follower cannot sync the prefix: %v", err)
@@ -153,22 +158,46 @@ func reorgScenario(c *pbt.C, id string, check func(c *pbt.C, key string, b, cn *
 		}
 		check(c, id, b, cn)
 		// pool of B must be a pool C can have: C accepts every block of it
-		bp := b.Chain.GetAllUncommittedAccountBlocks()
-		for _, blk := range bp {
-			if blk.BlockType == nom.BlockTypeContractSend {
-				continue
+		poolToC := func() int {
+			bp := b.Chain.GetAllUncommittedAccountBlocks()
+			for _, blk := range bp {
+				if blk.BlockType == nom.BlockTypeContractSend {
+					continue
+				}
+				wb, err := sim.WireBlocks([]*nom.AccountBlock{blk})
+				if err != nil {
+					continue
+				}
+				if err := cn.Bridge.AddAccountBlocks(wb); err != nil {
+					c.Failf(id+"/pool", "after the switch B's pool holds block %v/%d which a node that only saw the adopted branch refuses: %v",
+						blk.Address, blk.Height, err)
+				}
 			}
-			wb, err := sim.WireBlocks([]*nom.AccountBlock{blk})
-			if err != nil {
-				continue
-			}
-			if err := cn.Bridge.AddAccountBlocks(wb); err != nil {
-				c.Failf(id+"/pool", "after the switch B's pool holds block %v/%d which a node that only saw the adopted branch refuses: %v",
-					blk.Address, blk.Height, err)
-			}
+			return len(bp)
 		}
-		if len(bp) > 0 {
+		if poolToC() > 0 {
 			c.Class("pool-survived-switch")
+		}
+		// B produces the next momentum itself (from whatever its pool holds after the switch): every
+		// other honest node must accept it
+		bProduces := func(others ...*sim.Node) {
+			hb := sim.NewHistOn(c, h.W, b, h2)
+			if !hb.Produce(0) {
+				return
+			}
+			for _, o := range others {
+				if _, err := o.Bridge.InsertChain(b.Range(o.Height()+1, b.Height())); err != nil {
+					c.Failf(id+"/own-momentum-after-reorg-refused", "after the reorganisation the node produced momentum %d which %s (which only saw the adopted branch) refuses: %v", b.Height(), o.Name, err)
+				}
+			}
+			poolToC() // the receives B's worker generated reach C: paired-block answers depend on them
+			check(c, id, b, cn)
+			c.Class("reorganised-node-produces")
+		}
+		when := c.Pick("bProducesWhen", 3)
+		if when == 1 {
+			bProduces(cn, a2)
+			topY = a2.Height()
 		}
 		// both continue with the same further operations
 		grow(c, h2, "after", c.Int("after.m", 1, 4), 8)
@@ -184,6 +213,9 @@ func reorgScenario(c *pbt.C, id string, check func(c *pbt.C, key string, b, cn *
 			c.Failf(id+"/setup", "reference node refused honest momentums: %v", err)
 		}
 		check(c, id, b, cn)
+		if when == 2 {
+			bProduces(cn)
+		}
 		c.Class(fmt.Sprintf("fork-depth-%s", bucket(lenX)))
 		if lenX >= 2 && views >= 1 {
 			c.NonTrivial()
